@@ -250,3 +250,58 @@ def language_subset_of(pattern, flags, strings, probes):
     rx = re.compile(pattern, flags)
     got = set(p for p in probes if rx.fullmatch(p) is not None)
     return got == set(strings)
+
+
+def _unbounded(op, av):
+    return op in (sre_constants.MAX_REPEAT, sre_constants.MIN_REPEAT) and av[1] >= sre_constants.MAXREPEAT - 1
+
+
+def _flat(seq):
+    """items of a sequence with capturing / non-capturing groups spliced in (groups without alternatives only)"""
+    out = []
+    for op, av in seq:
+        if op is sre_constants.SUBPATTERN:
+            out.extend(_flat(av[3]))
+        else:
+            out.append((op, av))
+    return out
+
+
+def _seq_nullable(items):
+    class _P(list):
+        pass
+    for op, av in items:
+        if op in (sre_constants.MAX_REPEAT, sre_constants.MIN_REPEAT):
+            if av[0] == 0:
+                continue
+            if not _seq_nullable(_flat(av[2])):
+                return False
+            continue
+        if op in (sre_constants.ASSERT, sre_constants.ASSERT_NOT, sre_constants.AT):
+            continue
+        if op is sre_constants.BRANCH:
+            if any(_seq_nullable(_flat(alt)) for alt in av[1]):
+                continue
+            return False
+        return False
+    return True
+
+
+def exponential_repeats(parsed):
+    """Unbounded repeats whose body contains an unbounded repeat while everything else in the body can match the
+    empty string - `(?:X+ Y*)*`, `(X*)*`, `(X+)+`: a run of X can be cut into body matches in exponentially many ways,
+    and a backtracking matcher tries them all when the overall match fails (the lexer hangs on a long unterminated
+    literal).  Returns descriptions of the offending sub-expressions (sufficient condition, not a decision of
+    ambiguity in general)."""
+    out = []
+    for op, av in _walk(parsed):
+        if not _unbounded(op, av):
+            continue
+        body = _flat(av[2])
+        inner = [(i, x) for i, x in enumerate(body) if _unbounded(*x)]
+        for i, (iop, iav) in inner:
+            rest = body[:i] + body[i + 1:]
+            if _seq_nullable(rest):
+                out.append('an unbounded repeat inside an unbounded repeat whose other parts may be empty')
+                break
+    return out
